@@ -457,6 +457,9 @@ func c09sInterp(t *testing.T, c c09sCase) (v kit.Verdict) {
 				if flying > capHi && fLo > capHi {
 					classes["A-applies-high-load"] = true
 				}
+				if m.rejected && m.lastOver >= 0 && el-m.lastOver >= 1<<31*int64(time.Millisecond) && flying > capHi && fLo > capHi {
+					classes["A-long-idle-after-reject-high-load"] = true
+				}
 				if m.lastOver >= 0 && el-m.lastOver == c09sCool {
 					classes["A-exactly-1s"] = true
 					if m.rejected && flying > capHi && fLo > capHi {
@@ -770,8 +773,11 @@ func c09sGen(rt *rapid.T) c09sCase {
 			o.T = 0
 			bd, bk := in.bd, in.bk
 			toB := bd - el%bd
-			o.G = rapid.SampledFrom([]string{"zero", "ms", "ms", "sub", "toB", "toB-1", "toB+1", "k", "cool-1", "cool", "cool", "cool+1", "win", "multi", "huge"}).Draw(rt, "g")
+			o.G = rapid.SampledFrom([]string{"zero", "ms", "ms", "sub", "toB", "toB-1", "toB+1", "k", "cool-1", "cool", "cool", "cool+1", "win", "multi", "huge", "idle-wrap", "idle-wrap"}).Draw(rt, "g")
 			if o.G[0] == 'c' && (in.lastOver < 0 || in.lastOver+c09sCool-1 <= el) {
+				o.G = "ms"
+			}
+			if o.G == "idle-wrap" && in.lastOver < 0 {
 				o.G = "ms"
 			}
 			if o.G == "sub" && bd < 2 {
@@ -805,6 +811,23 @@ func c09sGen(rt *rapid.T) c09sCase {
 				}
 			case "multi":
 				o.D = rapid.Int64Range(2, 4).Draw(rt, "mw")*bk*bd + rapid.Int64Range(0, bd-1).Draw(rt, "mr")
+			case "idle-wrap":
+				// nothing asks the shedder for a long time after an overload: the next Allow comes
+				// k x 2^32 ms (or us, or 2^31 ms) later plus a bit less than / exactly / a bit more than
+				// the cool-off second (scale-free: where a narrowed "time since the overload" wraps)
+				unit := rapid.SampledFrom([]int64{1 << 32 * int64(time.Millisecond), 1 << 32 * int64(time.Millisecond), 1 << 31 * int64(time.Millisecond),
+					1 << 32 * int64(time.Microsecond), 1 << 32, 1 << 31}).Draw(rt, "wu")
+				k := rapid.SampledFrom([]int64{1, 1, 2, 3, 7, 100}).Draw(rt, "wk")
+				r := rapid.SampledFrom([]int64{-1, 0, 1, int64(time.Millisecond), 500 * int64(time.Millisecond), c09sCool - 1, c09sCool, c09sCool + 1}).Draw(rt, "wr")
+				o.D = in.lastOver + c09sSatMul(k, unit) + r - el
+				if o.D < 0 || c09sSatMul(k, unit) > c09sMaxEl {
+					o.D = 0
+				}
+				if rapid.Bool().Draw(rt, "wcpu") && in.thr > math.MinInt64 {
+					// the CPU has calmed down meanwhile
+					c.Ops = append(c.Ops, c09sOp{K: "cpu", V: in.thr - 1})
+					reading = in.thr - 1
+				}
 			case "huge":
 				o.D = rapid.SampledFrom([]int64{int64(time.Minute), int64(time.Hour), int64(30 * 24 * time.Hour), int64(100 * 365 * 24 * time.Hour), 1 << 31, 1<<32 + 1, 1 << 53}).Draw(rt, "hg")
 			}
